@@ -10,7 +10,7 @@ EXPLANATION = [
     'C17.dlc-sink: DLC.on_uih_frame calls its consumer inside try/except Exception, so hostile data that makes the consumer raise cannot desynchronise the RFCOMM credit ledgers.',
     'C17.ack-bounded: an acknowledgement received on an ERTM channel is accepted only if it covers no more frames than are actually outstanding (same rule as C08.window), so a forged ReqSeq cannot move the acknowledged sequence number past what was sent and wedge the transmitter.',
     'C17.depth-balance: the SDP parser\'s nesting counter is restored on every normal exit of the recursive list parser (path counting).',
-    'C17.feed-contained: every site that pushes received bytes into the HCI packet parser is inside try/except InvalidPacketError that lets the transport continue, or is a named plain event-loop callback where the escaping exception is only logged.',
+    'C17.feed-contained: every site that pushes received bytes into the HCI packet parser is inside try/except InvalidPacketError that lets the transport continue (the handler sits inside the receive loop, or the try is itself inside a further loop: a handler outside the loop ends reception), or is a named plain event-loop callback where the escaping exception is only logged.',
     'C17.parser-reset: the push parser consumes what it needs, resets after emission and before raising on an unknown type byte, and contains sink exceptions (same rule as C02.push-parser).',
     'C17.response-routing: the HF reader queues a line as a command response only under `self.pending_command`, which execute_command clears in finally.',
     'C17.contain: every hand-over of a received packet to a sink at the transport boundary is inside try/except Exception (or is a '
@@ -528,9 +528,19 @@ def feed_contained(ctx, rule='C17.feed-contained'):
             a = getattr(c, '_parent', None)
             contained = False
             prev = c
+            crossed_loop = False
             while a is not None:
-                if isinstance(a, ast.Try) and any(prev is s_ for s_ in a.body):
-                    for h in a.handlers:
+                if isinstance(a, (ast.For, ast.AsyncFor, ast.While)) and fn is None:
+                    crossed_loop = True
+                if isinstance(a, ast.Try) and any(prev is s_ for s_ in a.body) and fn is None:
+                    # a handler outside the receive loop ends that loop: only a handler inside the innermost loop
+                    # (or one that is itself inside a further loop of the same function) lets reception go on
+                    in_outer_loop = False
+                    b = getattr(a, '_parent', None)
+                    while b is not None and not isinstance(b, FUNC):
+                        in_outer_loop = in_outer_loop or isinstance(b, (ast.For, ast.AsyncFor, ast.While))
+                        b = getattr(b, '_parent', None)
+                    for h in (a.handlers if (not crossed_loop or in_outer_loop) else []):
                         ts = h.type.elts if isinstance(h.type, ast.Tuple) else ([h.type] if h.type is not None else [])
                         names = {text(t).split('.')[-1] for t in ts} or {'<bare>'}
                         # the handler must let the surrounding loop go on (no break / return / raise at its end)
